@@ -72,7 +72,7 @@ LEDGER = {
                     [M("ESDTTransfer,ESDTNFTTransfer,MultiESDTNFTTransfer,create,issue", hs=("u0a", "u1a", "c1a")), M("ESDTTransfer,MultiESDTNFTTransfer,handover,acct,issue,create", hs=("u0a", "u1a"), accsample=8)]),
                 need=dict(out_msgs=10, parsed=30, deliver_ok=5)),
     "C11": dict(profile="mixed", flags=["-alloc", "-adversarial", "75"], preds=["P11_Shape", "P11_ShapeVerdict", "P11_Alloc"],
-                mc=([M("ESDTTransfer,ESDTNFTTransfer,MultiESDTNFTTransfer,create", rejected=True, hs=("u0a", "u1a")), M("mintburn,metaops,create", rejected=True, hs=("u0a",)), M("kv,flags", rejected=True, hs=("u0a",)), M("acct,handover", rejected=True, hs=("u0a", "u1a"))],
+                mc=([M("ESDTTransfer,ESDTNFTTransfer,MultiESDTNFTTransfer,create,metadst", rejected=True, hs=("u0a", "u1a")), M("mintburn,metaops,create", rejected=True, hs=("u0a",)), M("kv,flags", rejected=True, hs=("u0a",)), M("acct,handover", rejected=True, hs=("u0a", "u1a"))],
                     [M("ESDTTransfer,ESDTNFTTransfer,MultiESDTNFTTransfer,create", rejected=True, hs=("u0a", "u1a")), M("mintburn,metaops,create,flags", rejected=True, hs=("u0a", "u1a")), M("kv,flags,acct", rejected=True, hs=("u0a", "u1a")), M("handover,roles", rejected=True, hs=("u0a", "u1a"))]),
                 extra_runs=[("gas", ["-gassweep", "-alloc"], 0.5), ("kv", ["-gassweep", "-alloc"], 0.3)],
                 need=dict(shapebad=100, steps=1000, gas_max=20)),
